@@ -95,7 +95,7 @@ fn statement_strategy() -> BoxedStrategy<Statement> {
         }
         let months = ["January", "February", "March", "april", "MAY", "June", "July", "August", "Sept", "October", "November", "December"];
         let month = (months[m as usize % 12].to_string(), 28 + (m % 3) as u8 % 3, 2015 + (m % 12) as i32);
-        Statement { holdings, total: format!("{}.{:02}", total_cents / 100, total_cents % 100), month, month_on_earlier_page: earlier, junk_pages_before: junk, pre_text: vec!["Investment summary".into(), "Some text 12.5 1,000.00".into()], post_text: vec!["² Allocation note 100.0 5".into(), "Footer".into()], total_alloc: if alt_total { "100.00".into() } else { "100.0".into() } }
+        Statement { holdings, total: format!("{}.{:02}", total_cents / 100, total_cents % 100), month, month_on_earlier_page: earlier, junk_pages_before: junk, pre_text: { let mut t: Vec<String> = vec!["Investment summary".into(), "Some text 12.5 1,000.00".into()]; match (m / 7) % 4 { 0 => t.push("\u{25a0} Equities \u{25a0} Fixed income \u{25a0} Cash".into()), 1 => t.push("\u{25a0} Note: figures as of month end".into()), _ => {} } t }, post_text: vec!["² Allocation note 100.0 5".into(), "Footer".into()], total_alloc: if alt_total { "100.00".into() } else { "100.0".into() } }
     }).boxed()
 }
 
